@@ -7,6 +7,8 @@ run; `Model.Hashmap` mirrors hashmap.py / utils.py / parse.py.
 -/
 import TonVerif.Proofs.Hashmap
 import TonVerif.Proofs.SrcHashmap
+import TonVerif.Proofs.SrcHashmapSer
+import TonVerif.Proofs.SrcHashmapGlue
 
 namespace TonVerif.Properties.C10
 open TonVerif TonVerif.Model TonVerif.Model.Hashmap TonVerif.Spec.Hashmap TonVerif.Proofs.Hashmap
@@ -357,5 +359,145 @@ example : (parse_hashmap 4 (Py.beginParse exCell) 1).map (·.1) =
   c10_src_parse_any (by decide) exCell_valid 4 (by decide)
 example : parse_hashmap 6 (Py.beginParse (.mk (-1) [true, true, true, true, true] [])) 2 = none := by rfl
 example : (deserialize_hml ⟨-1, [true, true, true, true, false, true], []⟩ 2).map (·.1) = some (2, [true, true]) := by rfl
+
+/-- a value serialiser for the examples: two copies of the bit -/
+def exSerC10 (v : Bool) : Option Val := some ([v, v], [])
+
+/-! ### the serialiser REGENERATED from utils.py (Generated/HashmapSrc.lean; proofs in Proofs/SrcHashmapSer.lean)
+
+`Py.Bld` = (bits, references) stored so far; `none` = the Python code raises; a value serialiser callback is `serCb ser` (appends the
+bits and references `ser v`; more than 1023 bits / 4 references raise); every statement holds for EVERY fuel ≥ 2·key_size + 2. -/
+section SrcSerialiser
+open TonVerif.Proofs.SrcHashmapSer
+
+/-- LABEL WRITER FROM THE SOURCE.  `write_label(src, key_size, to)` as regenerated from utils.py (with `write_label_short / long /
+same`) appends exactly the bits of the hand model's `labelBits` to ANY builder, for EVERY label and EVERY int `key_size`, and raises
+exactly when the model has no label (`store_uint` refuses the length) or the builder would exceed 1023 bits. -/
+theorem c10_src_label_writer (src : Bits) (key_size : Int) (to_ : Py.Bld) :
+    write_label src key_size to_ = (labelBits src key_size.natAbs).bind to_.extend? :=
+  write_label_eq src key_size to_
+
+/-- LABEL KIND FROM THE SOURCE.  For every label that fits its bound (`|src| ≤ n`, as everywhere in a tree of n-bit keys) the regenerated
+`write_label` appends a hashmap.tlb encoding `lb` of `src` in the constructor the REFERENCE serialiser chooses (`refLabelKind`: same iff
+constant ∧ len > 1 ∧ k < 2·len − 1, else long iff k < len, else short; k = bit_length(n)) — nothing else, and it raises only on overflow. -/
+theorem c10_src_label_kind (src : Bits) (n : Nat) (hl : src.length ≤ n) (to_ : Py.Bld) :
+    ∃ lb, LabelEnc n src (refLabelKind src.length n (allSame src)) lb ∧ write_label src (n : Int) to_ = to_.extend? lb := by
+  obtain ⟨lb, h⟩ := labelBits_some (s := src) (n := n) hl
+  exact ⟨lb, labelBits_enc hl h, by rw [c10_src_label_writer]; simp [h]⟩
+
+/-- LABEL MINIMAL FROM THE SOURCE.  The number of bits the regenerated `write_label` appends is the minimum over all admissible
+constructors (2+2·len / 2+k+len / 3+k), and among constructors of that length it uses the earliest of short < long < same. -/
+theorem c10_src_label_minimal (src : Bits) (n : Nat) (hl : src.length ≤ n) (to_ to' : Py.Bld)
+    (h : write_label src (n : Int) to_ = some to') (k : LabelKind) (hk : kindAdmissible k (allSame src)) :
+    to'.bits.length = to_.bits.length + encLen (detect_label_type src n) src.length n ∧
+    encLen (detect_label_type src n) src.length n ≤ encLen k src.length n ∧
+    (encLen (detect_label_type src n) src.length n = encLen k src.length n → rank (detect_label_type src n) ≤ rank k) := by
+  obtain ⟨lb, henc, hw⟩ := c10_src_label_kind src n hl to_
+  have hlen := LabelEnc_length henc
+  rw [hw, extend_eq] at h
+  split at h
+  · simp at h
+  · simp only [Option.some.injEq] at h
+    subst h
+    refine ⟨?_, c10_detect_minimal src n k hk⟩
+    rw [c10_label_kind]; simp [hlen]
+
+/-- `find_common_prefix(src)` from the source = the common prefix of the lexicographically least and greatest string, for EVERY list of
+'0'/'1' strings (it never raises); `pad(bin(k)[2:], n)` = the model's key string. -/
+theorem c10_src_common_prefix (src : List Bits) (k n : Nat) :
+    find_common_prefix src = some (findCommonPrefix src) ∧ pad (Py.binDigits k) n = some (keyBits n k) :=
+  ⟨find_common_prefix_eq src, pad_key k n⟩
+
+/-- `build_tree(map, n)` from the source (`pad`, `find_common_prefix`, `remove_prefix_map`, `fork_map`, `build_node`, `build_edge`) builds
+the hand model's tree for every map built by `set_int_key`: same labels (maximal common prefixes), same split at the next key bit
+(0 left, 1 right), same leaves. -/
+theorem c10_src_build_tree {V : Type} (n : Nat) (hn : 0 < n) (d : Dict V) (hd : DictOK n d) (fuel : Nat) (hf : 2 * n + 2 ≤ fuel) :
+    build_tree fuel d n = (buildTree n d).map toTree :=
+  build_tree_eq n hn d hd fuel hf
+
+/-- SERIALISER FROM THE SOURCE.  `serialize_dict(map, n, serializer).end_cell()` as regenerated from utils.py is what the hand model's
+`HashMap.serialize()` returns, for every non-empty map built by `set_int_key`, every value serialiser, every fuel ≥ 2n + 2 — same cell
+or both raise. -/
+theorem c10_src_serializer {V : Type} (n : Nat) (hn : 0 < n) (ser : V → Option Val) (d : Dict V) (hd : DictOK n d) (hne : d ≠ [])
+    (fuel : Nat) (hf : 2 * n + 2 ≤ fuel) :
+    (serialize_dict (serCb ser) fuel d n).map (fun b => some b.endCell) = serialize n ser d :=
+  serialize_dict_eq n hn ser d hd hne fuel hf
+
+/-- CANONICAL, FROM THE SOURCE.  `c10_canonical` holds of the regenerated serialiser: whenever `serialize_dict` returns a builder for a
+map built by `set_int_key`, its cell is a spec-valid `Hashmap n X` in which every label uses the reference constructor, whose leaves are,
+in strictly ascending key order, exactly the entries of the map — hence (`c10_unique`) THE canonical cell of that map. -/
+theorem c10_src_canonical {V : Type} (n : Nat) (hn : 0 < n) (ser : V → Option Val) (d : Dict V) (b : Py.Bld)
+    (hd : DictOK n d) (fuel : Nat) (hf : 2 * n + 2 ≤ fuel) (h : serialize_dict (serCb ser) fuel d n = some b) :
+    ∃ kv : List (Bits × Val), Canonical n b.endCell kv ∧ ValidHashmap n b.endCell kv ∧
+      kv.Pairwise (fun a b => natOfBits a.1 < natOfBits b.1) ∧ (∀ p ∈ kv, p.1.length = n) ∧
+      ∀ kb val, (kb, val) ∈ kv ↔ ∃ k v, (k, v) ∈ d ∧ kb = keyBits n k ∧ ser v = some val := by
+  have hne : d ≠ [] := by rintro rfl; rw [serialize_dict_nil] at h; simp at h
+  have := c10_src_serializer n hn ser d hd hne fuel hf
+  rw [h] at this
+  exact c10_canonical n hn ser d b.endCell hd this.symm
+
+/-! non-vacuity: the regenerated serialiser on the 2-bit map {2 ↦ 00, 1 ↦ 00} (insertion order 2, 1), and the three label kinds -/
+set_option linter.unusedSimpArgs false in
+example : write_label [true, false] 2 Py.Bld.empty = some ⟨[false, true, true, false, true, false], []⟩ := by
+  rw [write_label_eq]
+  simp [labelBits, detect_label_type, label_short_length, label_long_length, label_same_length, is_same, bitLength, Py.Bld.extend?, Py.Bld.empty]
+set_option linter.unusedSimpArgs false in
+example : write_label [true, false, true, false, true] 5 Py.Bld.empty = some ⟨[true, false, true, false, true, true, false, true, false, true], []⟩ := by
+  rw [write_label_eq]
+  simp [labelBits, detect_label_type, label_short_length, label_long_length, label_same_length, is_same, bitLength, Py.Bld.extend?, Py.Bld.empty, BOp.int2baU, natToBits]
+set_option linter.unusedSimpArgs false in
+example : write_label [true, true, true, true, true] 5 Py.Bld.empty = some ⟨[true, true, true, true, false, true], []⟩ := by
+  rw [write_label_eq]
+  simp [labelBits, detect_label_type, label_short_length, label_long_length, label_same_length, is_same, bitLength, Py.Bld.extend?, Py.Bld.empty, BOp.int2baU, natToBits]
+set_option maxRecDepth 4000 in
+example : (serialize_dict (serCb exSerC10) 6 [(2, false), (1, false)] 2).map (·.endCell) =
+    some (.mk (-1) [false, false] [.mk (-1) [false, true, false, true, false, false] [], .mk (-1) [false, true, false, false, false, false] []]) := by
+  have hd : DictOK 2 [(2, false), (1, false)] := ⟨by decide, by decide⟩
+  have := serialize_dict_eq 2 (by decide) exSerC10 [(2, false), (1, false)] hd (by simp) 6 (by decide)
+  have h2 : serialize 2 exSerC10 [(2, false), (1, false)] = some (some (.mk (-1) [false, false] [.mk (-1) [false, true, false, true, false, false] [], .mk (-1) [false, true, false, false, false, false] []])) := by
+    simp [serialize, buildTree, buildEdge, keyBits, binDigits, bitLength, natToBits, findCommonPrefix, lexMin, lexMax, lexLe,
+      commonPrefix, forkMap, writeEdge, labelBits, detect_label_type, label_short_length, label_long_length, label_same_length,
+      is_same, exSerC10]
+  rw [h2] at this
+  cases h : serialize_dict (serCb exSerC10) 6 [(2, false), (1, false)] 2 with
+  | none => rw [h] at this; simp at this
+  | some b => rw [h] at this; simpa using this
+
+end SrcSerialiser
+
+/-! ### `parse_hashmap_aug`'s int-key conversion and `Slice.load_hashmap_aug`, from the source -/
+section SrcAugApi
+open TonVerif.Generated TonVerif.Proofs.SrcHashmapGlue
+
+/-- `parse_hashmap_aug(cell.begin_parse(), n, x, y)` as regenerated from parse.py — recursion AND the final `{int(i, 2): j …}`
+conversion (ValueError on the empty key of a 0-bit dictionary) — and `Slice.load_hashmap_aug` as regenerated from slice.py ARE the hand
+model's `parseHashmapAug` (`outAug`: raise = none, None for a non-ordinary root = some none), for every decoder pair, every fuel ≥ 2n+2. -/
+theorem c10_src_parse_hashmap_aug {X Y : Type} (D : AugDec X Y) (fuel : Nat) (c : Cell) (n : Nat) (hf : 2 * n + 2 ≤ fuel) :
+    (parse_hashmap_aug (xdOf D) (ydOf D) fuel (Py.beginParse c) (n : Int)).map (·.1) = outAug (parseHashmapAug D c n) ∧
+    (HashmapGlue.load_hashmap_aug (xdOf D) (ydOf D) fuel (Py.beginParse c) (n : Int)).map (·.1) = outAug (parseHashmapAug D c n) :=
+  ⟨parse_hashmap_aug_eq D fuel c n hf, load_hashmap_aug_eq D fuel c n hf⟩
+
+/-- hence `c10_parse_any_aug_api` (first part) holds of the regenerated entry point: every spec-valid `HashmapAug n X Y` with an
+ordinary root is decoded to (int-keyed dict of the leaves, extras) -/
+theorem c10_src_parse_any_aug_api {X Y : Type} {D : AugDec X Y} {p : Bool} {n : Nat} {bits refs} {kv : List (Bits × X)} {ex : List Y}
+    (hn : 0 < n) (h : ValidAug D p n (.mk (-1) bits refs) kv ex) (fuel : Nat) (hf : 2 * n + 2 ≤ fuel) :
+    (parse_hashmap_aug (xdOf D) (ydOf D) fuel (Py.beginParse (.mk (-1) bits refs)) (n : Int)).map (·.1) = some (some (intKeys kv, ex)) := by
+  rw [(c10_src_parse_hashmap_aug D fuel _ n hf).1]
+  have h1 := parseHashmapAug_valid hn h
+  cases hq : parseHashmapAug D (.mk (-1) bits refs) n with
+  | err => rw [hq] at h1; exact h1.elim
+  | none => rw [hq] at h1; exact h1.elim
+  | dict r => rw [hq] at h1; simp only at h1; subst h1; rfl
+
+/-- `Slice.load_hashmap_aug_e(n, x, y)` as regenerated from slice.py, on an ordinary slice (for a special slice its first statement
+returns the cell itself), IS the hand model's `loadHashmapAugE` — the function `c10_parse_any_aug_api` and `c10_aug_e_extra_required`
+are about: `0 extra` gives `({}, [extra])`, `1 ^root extra` gives the parse of the root after the top-level extra was read. -/
+theorem c10_src_load_hashmap_aug_e {X Y : Type} (D : AugDec X Y) (fuel : Nat) (bits : Bits) (refs : List Cell) (n : Nat)
+    (hf : 2 * n + 2 ≤ fuel) :
+    (HashmapGlue.load_hashmap_aug_e (xdOf D) (ydOf D) fuel ⟨-1, bits, refs⟩ (n : Int)).map (·.1) =
+      outAugE (loadHashmapAugE D (-1) bits refs n) :=
+  load_hashmap_aug_e_eq D fuel bits refs n hf
+
+end SrcAugApi
 
 end TonVerif.Properties.C10
